@@ -8,54 +8,57 @@ import (
 	"go/token"
 	"go/types"
 	"strings"
+	"sync"
 
 	"golang.org/x/tools/go/packages"
 )
 
 type Obligation struct {
-	Name    string
-	Func    string
-	Kind    string // index, slice, post, pre, inv-init, inv-pres, decreases, nil, typeassert, panic, overflow, lemma, canary, cover
-	Pos     string
-	Prefix  int // number of script lines visible
-	PC      Term
-	Goal    Term
-	Desc    string
-	Expect  Verdict // VUnsat for proof obligations; VSat for cover; canary: must not be unsat
-	fx      *FuncCtx
-	Script  string // for stand-alone obligations (lemmas)
-	Result  *SolveResult
-	Vars    map[string]string // model var name -> Go-level description
-	Serves  []string
-	Canary  bool // passes unless the solver proves unsat (vacuity guard); short timeout
+	Name   string
+	Func   string
+	Kind   string // index, slice, post, pre, inv-init, inv-pres, decreases, nil, typeassert, panic, overflow, lemma, canary, cover
+	Pos    string
+	Prefix int // number of script lines visible
+	PC     Term
+	Goal   Term
+	Desc   string
+	Expect Verdict // VUnsat for proof obligations; VSat for cover; canary: must not be unsat
+	fx     *FuncCtx
+	Script string // for stand-alone obligations (lemmas)
+	Result *SolveResult
+	Vars   map[string]string // model var name -> Go-level description
+	Serves []string
+	Canary bool // passes unless the solver proves unsat (vacuity guard); short timeout
 }
 
 type FuncCtx struct {
-	prog    *Prog
-	pkg     *packages.Package
-	decl    *ast.FuncDecl
-	obj     *types.Func
-	con     *Contract
-	key     string
-	short   string
-	lines   []string
-	obs     []*Obligation
-	nfresh  int
-	useSeq  bool
-	loopOrd map[ast.Node]int
-	counts  map[string]int
-	lits    map[string]string // literal text -> array const name
-	entry   *State
-	params  map[string]types.Object // contract-visible names -> objects
-	results []types.Object
-	resNames []string
-	trusted map[string]bool // assumed contracts used
-	langsUsed map[string]bool
-	specUsed map[string]bool
-	modelVars map[string]string
+	prog        *Prog
+	pkg         *packages.Package
+	decl        *ast.FuncDecl
+	obj         *types.Func
+	con         *Contract
+	key         string
+	short       string
+	lines       []string
+	obs         []*Obligation
+	nfresh      int
+	useSeq      bool
+	loopOrd     map[ast.Node]int
+	counts      map[string]int
+	lits        map[string]string // literal text -> array const name
+	entry       *State
+	params      map[string]types.Object // contract-visible names -> objects
+	results     []types.Object
+	resNames    []string
+	trusted     map[string]bool // assumed contracts used
+	langsUsed   map[string]bool
+	specUsed    map[string]bool
+	modelVars   map[string]string
 	ghostLocals map[string]types.Object
-	curLoopIdx []types.Object
-	globals map[*types.Var]Val
+	curLoopIdx  []types.Object
+	globals     map[*types.Var]Val
+	hdrOnce     sync.Once
+	hdr         string
 }
 
 func (fx *FuncCtx) emit(line string) { fx.lines = append(fx.lines, line) }
